@@ -1,0 +1,58 @@
+//go:build verif
+
+// Verification hooks for property C20 (sync convergence). Add-only, compiled only with -tags verif.
+package network
+
+import (
+	"github.com/LemoFoundationLtd/lemochain-core/chain/types"
+	"github.com/LemoFoundationLtd/lemochain-core/common"
+)
+
+// VerifC20Group is one entry of BlockCache.cache.
+type VerifC20Group struct {
+	Height uint32
+	Alias  int // index of the first entry holding the same *blocksSameHeight pointer
+	Blocks []*types.Block
+}
+
+// VerifC20Dump returns the entries of the cache slice in slice order.
+func (c *BlockCache) VerifC20Dump() []VerifC20Group {
+	c.lock.Lock()
+	defer c.lock.Unlock()
+	res := make([]VerifC20Group, 0, len(c.cache))
+	for i, g := range c.cache {
+		alias := i
+		for j := 0; j < i; j++ {
+			if c.cache[j] == g {
+				alias = j
+				break
+			}
+		}
+		vg := VerifC20Group{Height: g.Height, Alias: alias}
+		for _, b := range g.Blocks {
+			vg.Blocks = append(vg.Blocks, b)
+		}
+		res = append(res, vg)
+	}
+	return res
+}
+
+// VerifC20Dump returns a copy of the confirm cache.
+func (c *ConfirmCache) VerifC20Dump() map[uint32]map[common.Hash][]*BlockConfirmData {
+	c.lock.Lock()
+	defer c.lock.Unlock()
+	res := make(map[uint32]map[common.Hash][]*BlockConfirmData)
+	for h, m := range c.cache {
+		res[h] = make(map[common.Hash][]*BlockConfirmData)
+		for k, l := range m {
+			res[h][k] = append([]*BlockConfirmData{}, l...)
+		}
+	}
+	return res
+}
+
+// VerifC20ConfirmCache returns the manager's confirm cache (the block cache is VerifBlockCache in verif_pm.go).
+func (pm *ProtocolManager) VerifC20ConfirmCache() *ConfirmCache { return pm.confirmsCache }
+
+// VerifC20RcvQueueLen is the number of block messages not yet taken by rcvBlockLoop.
+func (pm *ProtocolManager) VerifC20RcvQueueLen() int { return len(pm.rcvBlocksCh) }
